@@ -332,6 +332,12 @@ def workload(ctx, repo):
         integral = k % 4 != 0
         p = gen.rand_tp(rng, mode, integral=integral, bias=0.75,
                         year=gen.huge_year(rng) if k % 40 == 9 else None)
+        if k % 6 == 5:
+            # an operand that carries a dump format of its own (as parsed
+            # with dump_as_parsed=True): formatting is no part of the value
+            p["dump_format"] = rng.choice(("CCYY-Www-DThh:mm:ssZ",
+                                           "CCYYDDDThhmm+hhmm",
+                                           "CCYY-MM-DDThh:mm:ss+hh:mm"))
         if k % 7 == 0:
             case = {"op": "add_months", "mode": mode, "p": p,
                     "n": rng.choice([0, 1, -1, 12, -12, rng.randint(-40, 40),
